@@ -16,6 +16,12 @@
 open Model
 open Common
 
+(* the scan order: either given ("<n> e1 .. en") or, after the token M, the retained and the dropped sequence observed on the implementation,
+   merged here by the extracted merge_scan (SpannerModel.v; SpannerScanProofs.merge_run / C15_recovered_scan_reproduces are about that function) *)
+let next_scan t ws =
+  if t.a.(t.i) = "M" then (ignore (next t); let r = next_list t next_nat in let d = next_list t next_nat in merge_scan ws r d)
+  else next_list t next_nat
+
 let pr_spanner b g k scan =
   match construct_spanner g k scan with
   | SpOk sp -> pr_str b "SPR"; pr_nats b sp.retained; pr_str b " SPD"; pr_nats b sp.dropped; pr_str b " "
@@ -34,7 +40,7 @@ let pr_result b (r : approx_result) =
 let signed t b =
   let k = next_nat t in
   let (n, es, ws) = next_graph_raw t in
-  let scan = next_list t next_nat in
+  let scan = next_scan t ws in
   let roots = next_list t next_nat in
   let eord = next_list t next_nat in
   let g = { nv = nat_of_int n; ge = es } in
@@ -44,7 +50,7 @@ let signed t b =
 let given t b =
   let k = next_nat t in
   let (n, es, ws) = next_graph_raw t in
-  let scan = next_list t next_nat in
+  let scan = next_scan t ws in
   let sw = next_z t in
   let cs = next_list t (fun t -> next_list t next_nat) in
   let g = { nv = nat_of_int n; ge = es } in
@@ -69,7 +75,7 @@ let pr_tbb b ((r, pos) : tbb_result * nat) =
 let fvstrees t b =
   let k = next_nat t in
   let (n, es, ws) = next_graph_raw t in
-  let scan = next_list t next_nat in
+  let scan = next_scan t ws in
   let roots = next_list t next_nat in
   let picks = next_list t next_nat in
   let cs = next_list t (fun t -> next_list t next_nat) in
@@ -80,7 +86,7 @@ let fvstrees t b =
 let signedtbb t b =
   let k = next_nat t in
   let (n, es, ws) = next_graph_raw t in
-  let scan = next_list t next_nat in
+  let scan = next_scan t ws in
   let roots = next_list t next_nat in
   let eord = next_list t next_nat in
   let bits = next_bits t in
@@ -94,7 +100,7 @@ let signedtbb t b =
 let giventbb t b =
   let k = next_nat t in
   let (n, es, ws) = next_graph_raw t in
-  let scan = next_list t next_nat in
+  let scan = next_scan t ws in
   let sw = next_z t in
   let cs = next_list t (fun t -> next_list t next_nat) in
   let pos1 = next_nat t in
